@@ -210,6 +210,13 @@ type LeafPlan struct {
 	Sources   []string `json:"sources"`    // subset of flag, env, file, default
 	FlagBound bool     `json:"flag_bound"` // a flag is bound to the leaf (set only if "flag" is among the sources)
 	Required  bool     `json:"required"`
+	// ZeroFlag: the flag is set explicitly on the command line to the zero value of the field (--ratio=0, --wait=0s,
+	// --name=, --on=false): an explicit flag wins whatever its value
+	ZeroFlag bool `json:"flag_set_to_zero,omitempty"`
+	// TwoFlags: two flags with different non-zero default values are bound to the field through BindFlagsToEnv; the first
+	// one is set on the command line; OwnDefault: to a value equal to its own default (still an explicit choice)
+	TwoFlags   bool `json:"two_flags_bound,omitempty"`
+	OwnDefault bool `json:"flag_set_to_its_own_default,omitempty"`
 }
 
 type Case struct {
@@ -233,6 +240,11 @@ func genCase(t *rapid.T) Case {
 		}
 		p.FlagBound = contains(p.Sources, "flag") || rapid.IntRange(0, 3).Draw(t, fmt.Sprintf("l%d-bound", i)) == 0
 		p.Required = rapid.IntRange(0, 3).Draw(t, fmt.Sprintf("l%d-req", i)) == 0
+		p.ZeroFlag = contains(p.Sources, "flag") && rapid.IntRange(0, 5).Draw(t, fmt.Sprintf("l%d-zeroflag", i)) == 0
+		if contains(p.Sources, "flag") && !p.ZeroFlag && ls[i].Kind != reflect.Bool && rapid.IntRange(0, 5).Draw(t, fmt.Sprintf("l%d-twoflags", i)) == 0 {
+			p.TwoFlags = true
+			p.OwnDefault = rapid.Bool().Draw(t, fmt.Sprintf("l%d-owndefault", i))
+		}
 		c.Leaves = append(c.Leaves, p)
 	}
 	return c
@@ -370,7 +382,36 @@ func checkCase(t ev.T, test string, c Case) {
 				setEnv(envName(c.Prefix, l), asString(v))
 			}
 		}
-		if p.FlagBound {
+		if p.FlagBound && p.TwoFlags && contains(p.Sources, "flag") {
+			// two flags, different non-zero defaults; the first is set explicitly (possibly to the value of its own default)
+			nameA, nameB := fmt.Sprintf("f%da", i), fmt.Sprintf("f%db", i)
+			fv := valueFor(l, i, "flag", true)
+			other := valueFor(l, i+500, "default", true) // some other value of the right type
+			defA := valueFor(l, i+700, "default", true)
+			if p.OwnDefault {
+				defA = fv
+			}
+			switch {
+			case l.IsDur:
+				flags.Duration(nameA, defA.(time.Duration), "")
+				flags.Duration(nameB, other.(time.Duration), "")
+			case l.Kind == reflect.String:
+				flags.String(nameA, defA.(string), "")
+				flags.String(nameB, other.(string), "")
+			case l.Kind == reflect.Int:
+				flags.Int(nameA, defA.(int), "")
+				flags.Int(nameB, other.(int), "")
+			default:
+				flags.Float64(nameA, defA.(float64), "")
+				flags.Float64(nameB, other.(float64), "")
+			}
+			if err := config.BindFlagsToEnv(session, c.Prefix, envName(c.Prefix, l), flags.Lookup(nameA), flags.Lookup(nameB)); err != nil {
+				ev.Fail(t, prop, test, c, "BindFlagsToEnv(%s) failed: %v", envName(c.Prefix, l), err)
+			}
+			if err := flags.Set(nameA, asString(fv)); err != nil {
+				t.Fatalf("HARNESS: %v", err)
+			}
+		} else if p.FlagBound {
 			name := fmt.Sprintf("f%d", i)
 			switch {
 			case l.IsDur:
@@ -388,12 +429,18 @@ func checkCase(t ev.T, test string, c Case) {
 				ev.Fail(t, prop, test, c, "BindFlagToEnv(%s) failed: %v", envName(c.Prefix, l), err)
 			}
 			if contains(p.Sources, "flag") {
-				if err := flags.Set(name, asString(valueFor(l, i, "flag", win == "flag"))); err != nil {
+				fv := valueFor(l, i, "flag", win == "flag")
+				if p.ZeroFlag {
+					fv = reflect.Zero(reflect.TypeOf(fv)).Interface()
+				}
+				if err := flags.Set(name, asString(fv)); err != nil {
 					t.Fatalf("HARNESS: %v", err)
 				}
 			}
 		}
-		if win != "" {
+		if win == "flag" && p.ZeroFlag {
+			expected[i] = reflect.Zero(l.get(tv).Type()).Interface()
+		} else if win != "" {
 			expected[i] = valueFor(l, i, win, true)
 		} else {
 			expected[i] = reflect.Zero(l.get(tv).Type()).Interface()
